@@ -117,6 +117,10 @@ pub trait Tab: Send {
     // hooks (feature verif-hooks)
     fn successor(&mut self) -> bool;
     fn iter_from(&self) -> Box<dyn Iterator<Item = T>>;
+    /// adaptor calls made directly on the library's iterator type (so that its own overrides of
+    /// nth / skip / step_by, if any, are the code under test): kind 0 = nth(k), 1 = skip(k).next(),
+    /// 2 = first three items of step_by(s), 3 = nth(k) then nth(s) on the same iterator
+    fn iter_adaptor(&self, kind: u8, k: usize, s: usize) -> Vec<Option<T>>;
     // conversions
     /// Lut -> LutN (N = requested), LutN -> Lut (requested ignored)
     fn convert(&self, requested_n: usize) -> Result<T, ()>;
@@ -140,6 +144,8 @@ pub trait Family: Sync {
     fn from_blocks(&self, n: usize, b: &[u64]) -> T;
     fn from_hex(&self, n: usize, s: &str) -> Result<T, ()>;
     fn all_functions(&self, n: usize) -> Box<dyn Iterator<Item = T>>;
+    /// all_functions(n).nth(k), called directly on the library's iterator type
+    fn all_functions_nth(&self, n: usize, k: usize) -> Option<T>;
     /// bdd_complexity of an empty list (static: typed by n)
     fn bdd_complexity_empty(&self, n: usize) -> usize;
     /// From<u8/u16/u32/u64> for Lut3..Lut6 (static family only)
@@ -343,6 +349,23 @@ macro_rules! impl_tab {
             fn iter_from(&self) -> Box<dyn Iterator<Item = T>> {
                 Box::new(<$ty>::verif_all_functions_from(&self.0).map(|l| Box::new(W(l)) as T))
             }
+            fn iter_adaptor(&self, kind: u8, k: usize, s: usize) -> Vec<Option<T>> {
+                let b = |l: $ty| Box::new(W(l)) as T;
+                let mut it = <$ty>::verif_all_functions_from(&self.0);
+                match kind {
+                    0 => vec![it.nth(k).map(b)],
+                    1 => vec![it.skip(k).next().map(b)],
+                    2 => {
+                        let mut st = it.step_by(s);
+                        (0..3).map(|_| st.next().map(b)).collect()
+                    }
+                    _ => {
+                        let x = it.nth(k).map(b);
+                        let y = it.nth(s).map(b);
+                        vec![x, y]
+                    }
+                }
+            }
             fn convert(&self, requested_n: usize) -> Result<T, ()> {
                 let f: fn(&$ty, usize) -> Result<T, ()> = $convert;
                 f(&self.0, requested_n)
@@ -502,6 +525,9 @@ impl Family for DynFam {
     fn all_functions(&self, n: usize) -> Box<dyn Iterator<Item = T>> {
         Box::new(Lut::all_functions(n).map(bx))
     }
+    fn all_functions_nth(&self, n: usize, k: usize) -> Option<T> {
+        Lut::all_functions(n).nth(k).map(bx)
+    }
     fn bdd_complexity_empty(&self, _n: usize) -> usize {
         Lut::bdd_complexity(&[])
     }
@@ -552,6 +578,9 @@ impl Family for StatFam {
     }
     fn all_functions(&self, n: usize) -> Box<dyn Iterator<Item = T>> {
         with_static!(n, L => Box::new(L::all_functions().map(bx)))
+    }
+    fn all_functions_nth(&self, n: usize, k: usize) -> Option<T> {
+        with_static!(n, L => L::all_functions().nth(k).map(bx))
     }
     fn bdd_complexity_empty(&self, n: usize) -> usize {
         with_static!(n, L => L::bdd_complexity(&[]))
